@@ -352,14 +352,14 @@ def _mutate(c, model, kind=None):
         el, a, _t, _f = p
         a["type"] = a["type"] if is_nn(a["type"]) else ["nn", a["type"]]
         a["default"] = None
-        a["dep"] = "gone"
+        a["dep"] = c.choose(["gone", "", "No longer supported"])
         return m, "required-arg-deprecated", el
     if kind == "deprecated-required-input-field":
         io = pick([i for i in m["inputs"] if not i["oneof"]])
         if not io:
             return None
         io["fields"].append({"name": "zz_req", "type": ["nn", "Int"], "default": None, "desc": None,
-                             "dep": "gone"})
+                             "dep": c.choose(["gone", "", "No longer supported"])})
         return m, "required-input-field-deprecated", f"{io['name']}.zz_req"
     if kind == "input-cycle":
         io = pick([i for i in m["inputs"] if not i["oneof"]])
@@ -387,7 +387,7 @@ def _mutate(c, model, kind=None):
         if not p:
             return None
         t, _i, f = p
-        _field(t, f["name"])["dep"] = "old"
+        _field(t, f["name"])["dep"] = c.choose(["old", "", "No longer supported"])
         return m, "deprecated-implementation", f"{t['name']}.{f['name']}"
     if kind == "directive-no-locations":
         m["directives"].append({"name": "noloc", "desc": None, "args": [], "repeatable": False,
